@@ -49,6 +49,161 @@ impl Visitor for V<'_> {
     }
 }
 
+// ---------------------------------------------------------------------------------------------
+// scale family: a fixed, explicit list of long scripted histories (every one is executed; no
+// sampling). It exists because thresholds that hang on constants in the registry code (its slab
+// starts with 1024 slots; anything keyed on "more than 1024" / "fewer than 512" entries) are out
+// of reach of a depth-bounded history tree.
+
+#[derive(Clone, Copy, Debug, PartialEq, Eq, serde::Serialize)]
+pub enum Order {
+    Issue,
+    Reverse,
+    EveryOther,
+}
+
+#[derive(Clone, Copy, Debug, serde::Serialize)]
+pub struct ScaleScript {
+    /// requests issued by the first burst
+    pub n: u16,
+    /// order in which the first ceil(n/2)+2 burst requests are answered
+    pub first: Order,
+    /// everything else (after a second burst of 200) is answered in reverse issue order
+    pub rest_reverse: bool,
+}
+
+pub fn scale_scripts() -> Vec<ScaleScript> {
+    let mut v = vec![];
+    for n in [1023u16, 1024, 1025, 2049] {
+        for first in [Order::Issue, Order::Reverse, Order::EveryOther] {
+            for rest_reverse in [false, true] {
+                v.push(ScaleScript {
+                    n,
+                    first,
+                    rest_reverse,
+                });
+            }
+        }
+    }
+    v
+}
+
+pub struct ScaleRun {
+    pub steps: Vec<Step>,
+    pub failed: Option<(usize, Vec<Finding>)>,
+    pub max_outstanding: usize,
+    pub ids_reused: u64,
+    pub burst_answers: u32,
+}
+
+pub fn run_scale(sc: &ScaleScript) -> ScaleRun {
+    use crate::app::TinyOp;
+    use crate::sys::{Kind, Op};
+    let mut sys = System::new(&LANES);
+    let mut steps: Vec<Step> = vec![];
+    let mut ids_reused = 0;
+    let mut failed = None;
+    let is_burst = |e: &crate::sys::Entry| matches!(e.op, Op::Tiny(TinyOp::AskN(_)));
+    // returns false when the history has to stop
+    let mut go = |sys: &mut System, steps: &mut Vec<Step>, st: Step| -> bool {
+        if !sys.is_enabled(&st) {
+            return true;
+        }
+        steps.push(st.clone());
+        let f = sys.apply(&st, true);
+        ids_reused += std::mem::take(&mut sys.stats.ids_reused_last);
+        if !f.is_empty() {
+            failed = Some((steps.len() - 1, f));
+            return false;
+        }
+        true
+    };
+    let stream_at = |sys: &System| sys.out.iter().position(|e| e.kind == Kind::Many);
+    'script: {
+        // a live subscription, a notification, a legacy one-shot that stays outstanding
+        for st in [Step::Ev(2), Step::Ev(4), Step::Ev(0), Step::Burst(sc.n), Step::Ev(4)] {
+            if !go(&mut sys, &mut steps, st) {
+                break 'script;
+            }
+        }
+        let first_batch = (usize::from(sc.n) + 1) / 2 + 2;
+        let mut cursor = 0usize;
+        for answered in 0..first_batch {
+            let burst: Vec<usize> = (0..sys.out.len()).filter(|i| is_burst(&sys.out[*i])).collect();
+            if burst.is_empty() {
+                break;
+            }
+            let k = match sc.first {
+                Order::Issue => burst[0],
+                Order::Reverse => burst[burst.len() - 1],
+                Order::EveryOther => {
+                    if cursor >= burst.len() {
+                        cursor = 0;
+                    }
+                    let k = burst[cursor];
+                    cursor += 1;
+                    k
+                }
+            };
+            if !go(&mut sys, &mut steps, Step::Resp(k)) {
+                break 'script;
+            }
+            // a stream item now and then (the consumer takes two and ends; a later item is
+            // answered FinishedMany, which frees the id), a notification, a new subscription
+            if answered % 128 == 64 {
+                if let Some(s) = stream_at(&sys) {
+                    if !go(&mut sys, &mut steps, Step::Resp(s)) {
+                        break 'script;
+                    }
+                } else if !go(&mut sys, &mut steps, Step::Ev(2)) {
+                    break 'script;
+                }
+            }
+            if answered % 256 == 200 && !go(&mut sys, &mut steps, Step::Ev(4)) {
+                break 'script;
+            }
+        }
+        if !go(&mut sys, &mut steps, Step::Burst(200)) {
+            break 'script;
+        }
+        // everything else that is a one-shot, in issue or reverse order
+        let mut guard = 0;
+        loop {
+            guard += 1;
+            let once: Vec<usize> =
+                (0..sys.out.len()).filter(|i| sys.out[*i].kind == Kind::Once).collect();
+            if once.is_empty() || guard > 10_000 {
+                break;
+            }
+            let k = if sc.rest_reverse { once[once.len() - 1] } else { once[0] };
+            if !go(&mut sys, &mut steps, Step::Resp(k)) {
+                break 'script;
+            }
+            if guard % 300 == 150 {
+                if let Some(s) = stream_at(&sys) {
+                    if !go(&mut sys, &mut steps, Step::Resp(s)) {
+                        break 'script;
+                    }
+                }
+            }
+        }
+        // afterwards the registry is nearly empty again: fresh requests reuse low ids
+        for st in [Step::Ev(1), Step::Resp(0), Step::Ev(0), Step::Resp(0), Step::Resp(0)] {
+            if !go(&mut sys, &mut steps, st) {
+                break 'script;
+            }
+        }
+    }
+    let burst_answers = sys.lanes[0].view().map(|v| v.burst.0).unwrap_or(0);
+    ScaleRun {
+        max_outstanding: sys.stats.max_outstanding,
+        steps,
+        failed,
+        ids_reused,
+        burst_answers,
+    }
+}
+
 /// Built-in canary: the oracle input is made deliberately wrong (the typed twin is given a
 /// different answer value than the bridges); the step oracle must object.
 fn canary() -> bool {
@@ -161,6 +316,22 @@ pub fn run(tier: Tier, args: &[String]) -> i32 {
             total = st;
         }
     }
+    // the scripted scale family (both tiers)
+    let scale_t0 = rep.elapsed();
+    let scripts = scale_scripts();
+    let v = V { rep: &rep };
+    let scale_runs = mc_kit::par_map(&scripts, |_, sc| {
+        let r = run_scale(sc);
+        if let Some((i, f)) = &r.failed {
+            use crate::explore::Visitor;
+            v.report(&r.steps[..=*i], *i, f);
+        }
+        json!({"first_burst": sc.n, "first_half_answered": sc.first, "rest_in_reverse_order": sc.rest_reverse,
+               "steps": r.steps.len(), "max_outstanding": r.max_outstanding, "ids_reused": r.ids_reused,
+               "burst_answers_delivered": r.burst_answers, "clean": r.failed.is_none()})
+    });
+    let scale_steps: u64 = scale_runs.iter().map(|r| r["steps"].as_u64().unwrap_or(0)).sum();
+    let scale_wall = rep.elapsed() - scale_t0;
     if total.nontrivial < 2 {
         mc_kit::machinery_error("C09: fewer than 2 non-trivial histories were explored");
     }
@@ -173,6 +344,16 @@ pub fn run(tier: Tier, args: &[String]) -> i32 {
         "transitions": total.nodes.saturating_sub(1),
         "steps_executed_including_prefix_replays": total.steps_executed,
         "reduced_menu_deep_run_nodes (also compared with the twin, not included in states)": reduced_nodes,
+        "scale_family": {
+            "what": "a FIXED, explicit list of long scripted histories, every one of them executed (enumeration of that list, no sampling), every step under the same oracle as the tree (outcome, decoded requests and view against the typed twin, ids of simultaneously outstanding requests pairwise distinct, registry one-shot entries == outstanding one-shots), both bridges",
+            "why": "thresholds that hang on constants in the registry code (its slab starts with 1024 slots; 512 is half of it) are out of reach of the depth-bounded history tree",
+            "script": "Sub, Render, Single (stays outstanding), Burst(N) = N one-shot requests from one event whose continuations fold (question, answer) into the view, Render; answer the first ceil(N/2)+2 burst requests in issue order | in reverse order | every other one, with a stream item (or a new subscription once the consumer has ended and the late item was answered FinishedMany) every 128 answers and a notification now and then; Burst(200); answer everything else in issue | reverse order; finally fresh requests on the nearly empty registry",
+            "N": [1023, 1024, 1025, 2049],
+            "scripts": scale_runs.len(),
+            "steps_total": scale_steps,
+            "wall_s": scale_wall,
+            "runs": scale_runs,
+        },
         "traces_validated_against_impl": total.nodes,
         "evaluations": total.nodes * 2,
         "evaluations_note": "every history-tree node: the step oracle evaluated for the bincode bridge and for the JSON bridge against the typed twin",
